@@ -99,6 +99,21 @@ def graph_events(g, n, rng, do_dm, nsets, gp=None):
             conv.fn = {"g": "to_graph", "s": "to_stab", "dm": "to_pv"}[dst]
             e = guarded(conv.fn, f"convert_representation({src}->{dst})", conv)
             evs.append(e)
+    # chains of conversions on ONE QuantumState object (whatever the object keeps from the previous representation is in play)
+    for _ in range(2):
+        chain = [rng.choice(reps)]
+        for _k in range(rng.randint(2, 4)):
+            chain.append(rng.choice([r for r in reps if r != chain[-1]] or reps))
+
+        def conv_chain():
+            qs = cz.target_state(g.copy(), chain[0])
+            for r in chain[1:]:
+                qs.convert_representation(r)
+            fn, o = obs_of_state(qs, n, order=list(g.nodes()))
+            conv_chain.fn = fn
+            return o
+        conv_chain.fn = {"g": "to_graph", "s": "to_stab", "dm": "to_pv"}[chain[-1]]
+        evs.append(guarded(conv_chain.fn, "convert_representation chain " + "->".join(chain), conv_chain))
     return evs
 
 
